@@ -57,6 +57,7 @@ def check(ctx):
              '(ii-d) nested / re-entrant use: outer functions F(x) = G(x) - G(x*) whose G couples to the solution w(x) of an inner system that the user function solves with a real ohsl Newton solve per evaluation '
              '(all constants in closed form, w(x*) = w*; diagonal dominance and basin proved with |dw/dx| <= 1/gap_inner): inner size equal / smaller / larger, scalar in system, system in scalar, complex in real, real in complex (fixed right-hand side), '
              'user-Jacobian inner solver, two levels deep (A calls B calls C); half of them run the inner solves of call 2 on a second thread (std::thread::scope) while the first is mid-solve - call 2 must stay bit-identical to call 1; '
+             '(ii-e) SAME-OBJECT re-entrancy: the user function of a solve calls solve on the very object that is solving (inner problem t - tau(y) = 0 converging at once with closed-form result; inner root-free problem using the whole budget; a second object whose function calls back into the first), every variant: in-basin outer problems must succeed, root-free outer problems must stop within the budget (evaluation watchdog); '
              '(iii-b) an undefined equation while the others have converged: systems of dimension 2..5, equation p in every position NaN always or from the second step on (sqrt / acos of a Newton step outside the domain), the other equations linear and already at / one step from their roots, all four system variants: must fail, and success never carries a non-finite component; '
              '(iv) ladders: never-converging functions (root-free, constant, non-differentiable, z^2 with tol 1e-300) solved under limits 1, 0, 2, 3, 5, 8, 13, 20, 50 on one object, all six variants: '
              'closure calls under limit m = m x calls under limit 1 (exactly m steps), every run a prefix of the longer ones, Err carries a point of step m+1; '
